@@ -154,11 +154,29 @@ def run_case(case):
             idx[who] += 1
             if net.viol:
                 break
+        if not net.viol and case.get("late_clone"):
+            # a clone made through the proxy AFTER notes exist on the remote: the clone hook has to bring them along
+            k = len(net.clones)
+            pth = os.path.join(net.w.root, "clone%d" % k)
+            pr = net.w.git("clone", "-q", net.remote, pth, cwd=net.w.root)
+            if pr.rc == 0:
+                net.w.git("checkout", "-q", "-b", "c%d" % k, cwd=pth, plain=True)
+                net.clones.append(pth)
+                net.log.append([k, "late-clone", pr.rc])
+                net.check_monotone("late clone")
+                have = set(net.w.ogit("rev-list", "--all", cwd=pth).split())
+                m = net.loc_map(pth)
+                rm = net.loc_map(net.remote)
+                for c in have:
+                    if c in rm and c not in m:
+                        net.viol.append(dict(kind="C10/late-clone-missing-note", commit=c))
+                if case.get("late_clone") == "commit":
+                    net.step(k, "commit")
         if not net.viol:
             net.close()
         commits = len(net.author_note)
         return dict(index=case["index"], viol=net.viol, stats=dict(steps=len(net.log), commits_with_notes=commits, locations=len(progs) + 1),
-                    sig=json.dumps([progs, order, bool(case.get("parallel_push"))]), log=net.log, nontrivial=commits > 0 and any("push" in p for p in progs),
+                    sig=json.dumps([progs, order, bool(case.get("parallel_push")), case.get("late_clone")]), log=net.log, nontrivial=commits > 0 and any("push" in p for p in progs),
                     inconclusive=None, sample=dict(programs=progs, schedule=order, log=net.log))
     finally:
         net.destroy()
@@ -185,6 +203,19 @@ def main(tier, seed, replay=None):
             cases.append(dict(seed=seed, index=i, progs=[pa, pb], order=order)); i += 1
     for _ in range(4 if tier == "quick" else 30):
         cases.append(dict(seed=seed, index=i, progs=[["commit", "push"], ["commit", "push"]], order=[0, 1, 0, 1][:0], parallel_push=True)); i += 1
+    for j in range(10 if tier == "quick" else 40):
+        pa = ["commit", "push"] + [rng.choice(STEPS) for _ in range(rng.choice([0, 1]))]
+        pb = [rng.choice(["commit", "fetch"])] + [rng.choice(STEPS) for _ in range(rng.choice([1, 2]))]
+        order = [0] * len(pa) + [1] * len(pb)
+        rng.shuffle(order)
+        cases.append(dict(seed=seed, index=i, progs=[pa, pb], order=order, late_clone=rng.choice(["plain", "commit"]))); i += 1
+    for _ in range(12 if tier == "quick" else 0):
+        # three clones (sampled orders) also in the quick tier
+        progs = [[rng.choice(STEPS) for _ in range(rng.choice([2, 3]))] for _ in range(3)]
+        progs[0][0] = "commit"
+        order = [k for k, p in enumerate(progs) for _ in p]
+        rng.shuffle(order)
+        cases.append(dict(seed=seed, index=i, progs=progs, order=order)); i += 1
     if tier == "thorough":
         for _ in range(150):
             progs = [[rng.choice(STEPS) for _ in range(rng.choice([2, 3]))] for _ in range(3)]
